@@ -1858,6 +1858,14 @@ func (vm *VM) execWsGetUptime() error {
 	return nil
 }
 
+// ToInterface converts a VM Value to the Go value the interpreter would hold
+// for it (int64, float64, string, bool, nil, []interface{},
+// map[string]interface{}), e.g. to check a compiled route's result against
+// its declared return type with the interpreter's type checker.
+func ToInterface(v Value) interface{} {
+	return valueToInterface(v)
+}
+
 // valueToInterface converts a VM Value to a Go interface{}
 func valueToInterface(v Value) interface{} {
 	switch val := v.(type) {
